@@ -28,7 +28,7 @@ ASSUMPTIONS = [
 ]
 
 IPS = ["192.0.2.7", "198.51.100.9", "2001:db8::5"]
-CERTS = [None, "ec-a", "rsa-a", "ed-a", "twin-a", "twin-b", "chain:ec-b:ec-a", "chain:ec-b:rsa-a"]
+CERTS = [None, "ec-a", "rsa-a", "ed-a", "twin-a", "twin-b", "chain:ec-b:ec-a", "chain:ec-b:rsa-a", "ec-expired"]
 
 
 def fp_of(kind):
@@ -63,7 +63,9 @@ def comp_st(draw):
     return c
 
 
-srvsim_DENY = ["53 Access denied\r\n", "44 Slow down\r\n", "60 Client certificate required\r\n", "51 hidden\r\n"]
+srvsim_DENY = ["53 Access denied\r\n", "44 Slow down\r\n", "60 Client certificate required\r\n", "51 hidden\r\n",
+               # a component may answer with any complete response of its own, e.g. a maintenance page
+               "20 text/gemini\r\n# Maintenance\nBack at noon.\n", "44 30\r\n", "53 " + "d" * 900 + "\r\n"]
 
 PATHS = ["/", "/app/page.gmi", "/private/x", "/other", "/open;x/../private/x", "/x/y/%2e%2e/../private/x", "/app/%2E/../private/x"]
 
@@ -286,7 +288,7 @@ def judge(case, log, S, disconnected, fp, peer_ip, chain_len=None):
     wf = srvsim.parse_wf(S) if S else "empty"
     if isinstance(wf, str):
         return viol("refusal-not-well-formed", f"{S[:80]!r} ({wf})", **info)
-    if 20 <= wf[0] <= 29:
+    if 20 <= wf[0] <= 29 and not (ref == "deny" and resp is not None and resp[:1] == "2"):
         return viol("refused-request-got-2x", f"{S[:60]!r}", **info)
     if ref == "deny" and resp is not None and S != resp.encode():
         return viol("not-first-rejection", f"expected {resp!r} got {S[:60]!r}", **info)
@@ -559,7 +561,7 @@ def run_overlap(case: dict):
             if ran:
                 return viol("handler-ran-for-refused-request", f"connection {i} ({c['peer']}, cert {c['cert']}, {c['path']}): reference {ref} {resp!r} "
                             f"but the handler ran; other connections in flight: {[x for j, x in enumerate(case['conns']) if j != i]}", **info)
-            if S[:1] == b"2":
+            if S[:1] == b"2" and not (ref == "deny" and resp is not None and resp[:1] == "2"):
                 return viol("refused-request-got-2x", f"connection {i}: {S[:40]!r}", **info)
             if ref == "deny" and resp is not None and S != resp.encode():
                 return viol("not-first-rejection", f"connection {i}: expected {resp!r} got {S[:60]!r}", **info)
